@@ -168,6 +168,7 @@ func init() {
 	c10Ops = append(c10Ops,
 		c10Op{name: "AddHeader(default)", kind: "hdr"},
 		c10Op{name: "AddListItem", kind: "list"},
+		c10Op{name: "work on another document (build, save, reopen, render as template)", kind: "other"},
 		c10Op{name: "reopen(OpenFromMemory(ToBytes()))", kind: "reopen"},
 	)
 	c10SeedBase = len(c10Ops)
@@ -456,6 +457,8 @@ func (i *c10Inst) Apply(op int) (string, []rep.Violation) {
 		case "list":
 			i.doc.AddListItem("li", &document.ListConfig{Type: document.ListTypeNumber})
 			i.list++
+		case "other":
+			interfereRaw()
 		case "reopen":
 			_, b, errS := saveRead(i.doc)
 			if errS != "" {
